@@ -430,3 +430,28 @@ Proof.
   intros Hcl Hec H. unfold refuse in H.
   destruct (refuse_with_fields p _ ec e q Hcl Hec H) as (H1 & H2 & H3 & H4 & H5 & H6 & H7 & H8 & _). auto 10.
 Qed.
+
+(* ---- protobuf bodies (a message is represented by its proto.Marshal bytes) ---------------------- *)
+Lemma reply_registry_fields mid p b e q : reply mid p b = Some (e, q) ->
+  endpoint p = Some e /\ cmd q = (if mid =? 0 then cmd p else mid) /\ seq q = seq p /\ typ q = typ p /\
+  node q = node p /\ refers q = refers p /\ pbody q = b.
+Proof.
+  unfold reply. intros H. destruct (reply_fields p _ b e q H) as (H1 & H2 & H3 & H4 & H5 & H6 & _ & H8). auto 10.
+Qed.
+
+(* a message sent without the error flag and decoded by a registered type that accepts its bytes
+   is the message that was sent (the zero message, whose wire form is empty, included) *)
+Lemma decode_after_v1 p m : pbody p = BProto m -> has_flag (flg p) root_PFlagError = false ->
+  decode true true (v1_result p) = Some (with_body (v1_result p) (BProto m)).
+Proof.
+  intros Hb Hf. unfold decode. rewrite (resend_v1 p Hf), Hb. cbn [body_to_bytes].
+  destruct m; reflexivity.
+Qed.
+Lemma decode_after_v2 p m : pbody p = BProto m -> has_flag (flg p) root_PFlagError = false ->
+  decode true true (v2_result p) = Some (with_body (v2_result p) (BProto m)).
+Proof.
+  intros Hb Hf. unfold decode. rewrite (resend_v2 p Hf), Hb. cbn [body_to_bytes].
+  destruct m; reflexivity.
+Qed.
+Lemma decode_unregistered v p : decode false v p = None.
+Proof. reflexivity. Qed.
